@@ -14,6 +14,8 @@
 (***************************************************************************)
 EXTENDS Integers, Sequences, FiniteSets, TLC, Json
 
+CONSTANT Deep        \* TRUE (thorough): grids up to 6 x 6 cells, more spacings, ADMT also on unequal spacings and every interior cell
+
 \* --- polynomials and their exact derivatives
 P(p, x, y)   == p[1] + p[2] * x + p[3] * y + p[4] * x * x + p[5] * x * y + p[6] * y * y
 Px(p, x, y)  == p[2] + 2 * p[4] * x + p[5] * y
@@ -29,7 +31,7 @@ Fields == {<<3, 0, 0, 0, 0, 0>>,        \* constant
            <<1, 0, 0, 1, 0, 0>>, <<0, 1, 1, 0, 0, 2>>, <<2, -1, 0, 1, 1, -1>>}     \* quadratic
 
 Grids == {[nx |-> nx, ny |-> ny, dx |-> dx, dy |-> dy, x0 |-> x0, y0 |-> y0] :
-             nx \in 2..4, ny \in 2..4, dx \in {1, 2}, dy \in {1, 3}, x0 \in {1, 5}, y0 \in {-2}}
+             nx \in 2..(IF Deep THEN 6 ELSE 4), ny \in 2..(IF Deep THEN 6 ELSE 4), dx \in (IF Deep THEN {1, 2, 5} ELSE {1, 2}), dy \in {1, 3}, x0 \in {1, 5}, y0 \in {-2}}
 Ops == {"Dx", "Dy", "Dxx", "Dxy", "Dyy"}
 
 CellClass(g, ix, iy) == LET l == ix = 0  r == ix = g.nx - 1  b == iy = 0  t == iy = g.ny - 1 IN
@@ -45,7 +47,7 @@ Demanded(op, p, class) ==
 Exact(op, p, x, y) == CASE op = "Dx" -> Px(p, x, y) [] op = "Dy" -> Py(p, x, y) [] op = "Dxx" -> Pxx(p) [] op = "Dxy" -> Pxy(p) [] op = "Dyy" -> Pyy(p)
 
 DerivCases == {[kind |-> "deriv", g |-> g, op |-> op, p |-> p, ix |-> ix, iy |-> iy] :
-                 g \in {gg \in Grids : gg.x0 = 1}, op \in Ops, p \in Fields, ix \in 0..3, iy \in 0..3}
+                 g \in {gg \in Grids : gg.x0 = 1}, op \in Ops, p \in Fields, ix \in 0..(IF Deep THEN 5 ELSE 3), iy \in 0..(IF Deep THEN 5 ELSE 3)}
 
 \* --- ADMT: D = Dperp n n^T + Dpar t t^T with n = grad(psi)/|grad(psi)|, Dpar = 1, Dperp = 1/a.
 \* a * N^2 * R * div(D grad f) as an integer (N = |grad psi|^2, R = x):
@@ -71,7 +73,7 @@ FluxMaps == {<<0, 1, 0, 0, 0, 0>>, <<0, 1, 2, 0, 0, 0>>,                    \* l
 AdmtCases == {[kind |-> "admt", g |-> g, psi |-> psi, p |-> f, a |-> a, ix |-> ix, iy |-> iy] :
                 g \in {gg \in Grids : gg.nx >= 3 /\ gg.ny >= 3 /\ gg.dx = 1 /\ gg.dy = 1 /\ gg.x0 = 1},
                 psi \in FluxMaps, f \in {<<3, 0, 0, 0, 0, 0>>, <<4, -1, 2, 0, 0, 0>>, <<2, -1, 0, 1, 1, -1>>, <<0, 1, 1, 0, 0, 2>>},
-                a \in {1, 2, 10}, ix \in 1..2, iy \in 1..2}
+                a \in {1, 2, 10}, ix \in 1..(IF Deep THEN 4 ELSE 2), iy \in 1..(IF Deep THEN 4 ELSE 2)}
 
 VARIABLE c
 Init == c \in DerivCases \cup AdmtCases
